@@ -141,7 +141,8 @@ func verifNotNative(what string) { verifExit("VERIF-ERROR: "+what+" has no nativ
 func verifBlockForever()                   { select {} }
 func verifQuiesce()                        { time.Sleep(300 * time.Millisecond) }
 func verifLiveThreads() int                { verifNotNative("verifLiveThreads"); return 0 }
-func verifAdvanceTime()                    { time.Sleep(50 * time.Millisecond) }
+func verifAdvanceTime()                    { time.Sleep(1200 * time.Millisecond) }
+func verifSymbolicClock()                  {}
 func verifAbstractName(int) string         { verifNotNative("verifAbstractName"); return "" }
 func verifOpaqueASCII(int, int) string     { verifNotNative("verifOpaqueASCII"); return "" }
 func verifDisplayWidth(string) int         { verifNotNative("verifDisplayWidth"); return 0 }
